@@ -18,9 +18,9 @@ func init() {
 		Level: "exploration",
 		Rule: "case = seeded history (1-60 ops) on a sketch with exact summary statistics over {Add, AddWithCount (incl. weight 0), rejected calls through Add, AddWithCount, Reweight and MergeWith (NaN, +-Inf, beyond the largest indexable value, negative weight, factor 0, an argument with another mapping - also into an empty or just cleared receiver), MergeWith, DecodeAndMergeWith, Copy-continue, Clear, Reweight, ChangeMapping, Encode->Decode into any store kind, protobuf round trip of the sketch with the statistics carried by their getters and both put together again by NewSummaryStatisticsFromData / NewDDSketchWithExactSummaryStatisticsFromData} with values from the hostile value generator (plus adversarial sum sequences: 2^53 then many 1.0, alternating +-large, tiny after huge) and dyadic weights; " +
 			"in 40% of the histories up to 3 copies stay alive as companions (they keep absorbing values, are reweighted and cleared, are merged into the sketch and receive it as merge argument; every oracle applies to each of them), 35% are quiet (queries only after every 2nd-12th event); after every (queried) event: GetCount exact, IsEmpty iff nothing with positive weight, GetMin/MaxValue bitwise the true extremes, GetSum within (16+8L)*2^-53*sum|v*w| of the exact sum (L = lossy events), every quantile == clamp(plain answer, min, max) and inside [min,max], bins equal to the model when defined. " +
-			"Non-trivial = history with >=1 merge-or-decode and >=1 of {Reweight, Clear, Copy, ChangeMapping}; distinct = hash of the history.",
+			"One case in ten drives stat.SummaryStatistics directly (Add, AddToCount/AddToSum, MergeWith, Reweight, Rescale, Copy, Clear, NewSummaryStatisticsFromData) against the same exact model. Non-trivial = history with >=1 merge-or-decode and >=1 of {Reweight, Clear, Copy, ChangeMapping} (statistics-level cases: >=4 operation kinds); distinct = hash of the history.",
 		Cases:     core.Scale(30000, 800000),
-		Mandatory: []string{"oracle.stat_checks", "oracle.sum_checks", "oracle.quantile_clamp_checks", "event.MergeWith", "event.DecodeAndMergeWith", "event.Reweight", "event.ChangeMapping", "event.Encode->Decode", "event.ToProto->FromProto", "event.Copy->continue", "event.Clear", "adversarial_sum_cases", "adversarial_copy_chains", "zero_weight_adds", "event.rejected_call", "event.rejected_merge_into_empty_receiver", "histories_with_live_companions", "event.MergeWith(live companion)", "event.companion.MergeWith(sketch)", "quiet.histories"},
+		Mandatory: []string{"oracle.stat_checks", "oracle.sum_checks", "oracle.quantile_clamp_checks", "event.MergeWith", "event.DecodeAndMergeWith", "event.Reweight", "event.ChangeMapping", "event.Encode->Decode", "event.ToProto->FromProto", "event.Copy->continue", "event.Clear", "adversarial_sum_cases", "adversarial_copy_chains", "zero_weight_adds", "event.rejected_call", "oracle.stats_level_checks", "stats_level.event.Rescale", "stats_level.event.MergeWith", "stats_level.event.NewSummaryStatisticsFromData", "event.rejected_merge_into_empty_receiver", "histories_with_live_companions", "event.MergeWith(live companion)", "event.companion.MergeWith(sketch)", "quiet.histories"},
 		Assumptions: []string{
 			"dyadic weights under the exactness budget make the count exact; sum bound calibrated (DESIGN §3.6)",
 			"a ChangeMapping may round min/max like fl(extreme*factor)",
@@ -174,6 +174,10 @@ func checkExactStats(c *core.Ctx, st *skState) {
 
 func runC10(c *core.Ctx) {
 	r := c.R
+	if c.Index%10 == 9 {
+		runC10Stats(c)
+		return
+	}
 	m := gen.RandMap(r, true)
 	spec := gen.RandAnyStore(r)
 	pattern := signPatterns[r.Intn(len(signPatterns))]
